@@ -17,6 +17,22 @@ CLAIMED = {
   text="Deductive proof over ghost tables WH (webhooks) and HTTP (per-URL effect log): Webhook.Notify sends exactly one POST with exactly {TokenHeader: Token, Content-Type: json}; updateWebhookAfterNotification is the counter/threshold automaton; WebhooksService.Notify (loop invariant over the stored set, Skolem index WHIDX) delivers once to every stored active webhook with M = configured max_tries and leaves inactive/unknown rows untouched; CreateWebhook/refreshWebhook/DeleteWebhook/GetWebhookByURL against the registration rules; L1 WebhooksRepository methods and dto converters proved against the storage-port contracts (behavioural subtyping).",
   note="Assumed (trusted L0): the four webhook SQL statements in database/sql (contracts over WH); net/http delivery; time.Now, fmt.Sprint, io.ReadAll unconstrained; storage calls succeed under ghost nofault. WebhooksRepository.GetAllWebhooks (loop) is assumed via the port contract, not yet proved. Restart persistence rests on SQLite durability.",
   design="4 C12"),
+ "C01": dict(
+  text="Deductive proof that chainService.Add preserves the header-store invariant Inv over the ghost table HS for every stored tree and every submitted header (clause by clause: I0 genesis, Ist labels/heights, I1 parent link + cumulative work + insertion order, I1o orphan rule, I2a/I2b longest chain closed under parent and unique per height, I3 tip has the greatest cumulative work, earliest among equals, W work = spec_work(bits)), plus lemmas L-prop-1..3 showing Inv is the statement (LONGEST_CHAIN = ancestors of the tip, every other connected header STALE, orphans never counted) and six inductive ancestor lemmas. Duplicates and forbidden hashes leave HS unchanged. Helpers (first, lowestHeightOf, hashes, ignoreBlockHash, createHeader, previousHeader, insert, hasConcurrentHeaderFromLongestChain, stalePartOfChainOf, longestChainFromHeight, switchChainsStates, CreateHeader) each carry their own contract; no-panic obligations included.",
+  note="Assumed: the repository.Headers port contracts over HS (their SQL in database/sql is a trusted L0; the L1 glue for AddHeaderToDatabase/GetHeaderByHash/GetHeaderByHeight/GetTip is proved under C03, the list-returning methods and UpdateState are assumed); reads and writes succeed (ghost rok/wok); stored heights < MaxInt32; BlockHasher returns hashOf(source); sequential execution. Induction is at the meta level: each lemma block proves the inductive step.",
+  design="4 C01"),
+ "C03": dict(
+  text="Deductive proof that a stored record's height, work, cumulative work and state label are derived as stated (CreateHeader, createHeader incl. the unknown-parent stub), that Add inserts exactly the submitted source fields and leaves every field of every existing record except the state label unchanged (immutability, no record disappears), and that the row<->domain conversions (ToDbBlockHeader, ToBlockHeader) and the L1 repository methods lose nothing (hex/decimal codecs as inverse spec functions).",
+  note="Not covered by proof: hash = double SHA-256 of the 80-byte serialisation (BlockHasher is assumed to return hashOf(source); sha256 and the wire serialiser are outside this check), SQL column types, sub-second timestamp truncation. Trusted: L0 SQL contracts, chainhash String/NewHashFromStr as inverse codecs, math/big.",
+  design="4 C03"),
+ "C05": dict(
+  text="Deductive proof that at every write boundary inside a reorganisation (after each UpdateState) and on every return of Add - including every path on which a storage write fails (ghost wok dropped) - the store is structurally valid (I0, Ist, I1, I1o, I2a, I2b) and every existing record is present and unaltered except its state label; that Add from any structurally valid store (tip rule I3 not required, i.e. also from a post-crash store) succeeds when writes succeed - it is never stuck; and that start-up's genesis insert never modifies stored headers.",
+  note="Not covered: that a killed process leaves exactly a committed prefix of transactions on disk (SQLite atomic commit/durability assumed); 'same final state as an uninterrupted run' is argued in DESIGN.md but not discharged as an obligation; read failures are outside the statement (rok assumed); import path see C17.",
+  design="4 C05"),
+ "C11": dict(
+  text="Deductive proof that Add notifies exactly once when and only when it stores a header (ghost NOTIF count unchanged on duplicate, forbidden and failed-store paths), that the event payload equals the stored record's nine fields (HeaderAdded), that Notifier.Notify starts exactly one goroutine per registered channel with the event (ghost SPAWN log, loop invariant) and delivers nothing inline, and that the websocket channel publishes at most once per event on channel 'headers'.",
+  note="Assumed: spawned goroutines eventually run and do not interfere (schedules are out of scope); encoding/json and centrifuge delivery; webhook channel see C12.",
+  design="4 C11"),
 }
 
 NOT_APPLICABLE = {
